@@ -24,6 +24,16 @@ func (g *Gen) Number() ast.Vertex {
 		{"1.5", true}, {".5", true}, {"6.", true}, {"0.0", true}, {"1e3", true}, {"1E3", true}, {"1.5e-3", true}, {"2e+10", true}, {".5E1", true}, {"7.e2", true},
 	}
 	var l lit
+	if g.O.PHP7 && !g.O.Common && g.chance(1, 8, "numsep") {
+		// PHP 7.4 numeric literal separator
+		seps := []lit{{"1_000", false}, {"0x1F_FF", false}, {"0b1_0", false}, {"0_7", false}, {"1_0.5", true}, {"1_0e1_0", true}, {"9_223_372_036_854_775_808", true}}
+		l = seps[g.intn(len(seps), "sepnum")]
+		g.feat("numeric-separator")
+		if l.float {
+			return &ast.ScalarDnumber{NumberTkn: g.tok(token.T_DNUMBER, l.s), Value: []byte(l.s)}
+		}
+		return &ast.ScalarLnumber{NumberTkn: g.tok(token.T_LNUMBER, l.s), Value: []byte(l.s)}
+	}
 	switch g.intn(5, "numkind") {
 	case 0, 1, 2:
 		l = ints[g.intn(len(ints), "int")]
@@ -241,7 +251,7 @@ func (g *Gen) strPart(s string) *ast.ScalarEncapsedStringPart {
 
 // interp draws one interpolation. It returns the node and whether it is a
 // "simple syntax" form (whose following text must not extend it).
-func (g *Gen) interp() (ast.Vertex, bool) {
+func (g *Gen) interp() (ast.Vertex, int) {
 	g.inString++
 	defer func() { g.inString-- }()
 	noGap := func(ts ...*token.Token) {
@@ -256,7 +266,7 @@ func (g *Gen) interp() (ast.Vertex, bool) {
 	switch g.intn(max, "interp") {
 	case 0, 1:
 		g.feat("interp-var")
-		return v, true
+		return v, 1
 	case 2:
 		g.feat("interp-dim")
 		ob, cb := g.ch('['), g.ch(']')
@@ -308,24 +318,24 @@ func (g *Gen) interp() (ast.Vertex, bool) {
 			noGap(m, t)
 			dim = &ast.ScalarString{MinusTkn: m, StringTkn: t, Value: []byte("-0x1")}
 		}
-		return &ast.ExprArrayDimFetch{Var: v, OpenBracketTkn: ob, Dim: dim, CloseBracketTkn: cb}, false
+		return &ast.ExprArrayDimFetch{Var: v, OpenBracketTkn: ob, Dim: dim, CloseBracketTkn: cb}, 0
 	case 3:
 		g.feat("interp-prop")
 		op := g.tok(token.T_OBJECT_OPERATOR, "->")
 		p := g.Ident(g.plainName())
 		noGap(op, p.IdentifierTkn)
-		return &ast.ExprPropertyFetch{Var: v, ObjectOperatorTkn: op, Prop: p}, true
+		return &ast.ExprPropertyFetch{Var: v, ObjectOperatorTkn: op, Prop: p}, 2
 	case 4:
 		g.feat("interp-dollar-curly")
 		o := g.tok(token.T_DOLLAR_OPEN_CURLY_BRACES, "${")
 		n := g.tok(token.T_STRING_VARNAME, g.plainName())
 		c := g.ch('}')
 		noGap(o, n, c)
-		return &ast.ScalarEncapsedStringVar{DollarOpenCurlyBracketTkn: o, Name: &ast.Identifier{IdentifierTkn: n, Value: n.Value}, CloseCurlyBracketTkn: c}, false
+		return &ast.ScalarEncapsedStringVar{DollarOpenCurlyBracketTkn: o, Name: &ast.Identifier{IdentifierTkn: n, Value: n.Value}, CloseCurlyBracketTkn: c}, 0
 	case 5:
 		if g.O.NoEncapsedVarDim {
 			g.Excl["encapsed-var-dim"]++
-			return v, true
+			return v, 1
 		}
 		g.feat("interp-dollar-curly-dim")
 		o := g.tok(token.T_DOLLAR_OPEN_CURLY_BRACES, "${")
@@ -333,7 +343,7 @@ func (g *Gen) interp() (ast.Vertex, bool) {
 		ob := g.ch('[')
 		noGap(o, n, ob)
 		dim := g.innerExpr()
-		return &ast.ScalarEncapsedStringVar{DollarOpenCurlyBracketTkn: o, Name: &ast.Identifier{IdentifierTkn: n, Value: n.Value}, OpenSquareBracketTkn: ob, Dim: dim, CloseSquareBracketTkn: g.ch(']'), CloseCurlyBracketTkn: g.ch('}')}, false
+		return &ast.ScalarEncapsedStringVar{DollarOpenCurlyBracketTkn: o, Name: &ast.Identifier{IdentifierTkn: n, Value: n.Value}, OpenSquareBracketTkn: ob, Dim: dim, CloseSquareBracketTkn: g.ch(']'), CloseCurlyBracketTkn: g.ch('}')}, 0
 	case 6:
 		g.feat("interp-dollar-curly-expr")
 		o := g.tok(token.T_DOLLAR_OPEN_CURLY_BRACES, "${")
@@ -345,7 +355,7 @@ func (g *Gen) interp() (ast.Vertex, bool) {
 			e = g.simpleVar()
 		}
 		// the expression must not begin with a bare name directly after "${"
-		return &ast.ScalarEncapsedStringVar{DollarOpenCurlyBracketTkn: o, Name: e, CloseCurlyBracketTkn: g.ch('}')}, false
+		return &ast.ScalarEncapsedStringVar{DollarOpenCurlyBracketTkn: o, Name: e, CloseCurlyBracketTkn: g.ch('}')}, 0
 	default:
 		g.feat("interp-curly")
 		o := g.tok(token.T_CURLY_OPEN, "{")
@@ -355,7 +365,7 @@ func (g *Gen) interp() (ast.Vertex, bool) {
 		if ft := firstToken(inner); ft != nil {
 			g.setGap(ft, GapNone)
 		}
-		return &ast.ScalarEncapsedStringBrackets{OpenCurlyBracketTkn: o, Var: inner, CloseCurlyBracketTkn: g.ch('}')}, false
+		return &ast.ScalarEncapsedStringBrackets{OpenCurlyBracketTkn: o, Var: inner, CloseCurlyBracketTkn: g.ch('}')}, 0
 	}
 }
 
@@ -367,7 +377,7 @@ func (g *Gen) innerExpr() ast.Vertex { return g.Expr() }
 func (g *Gen) body(o bodyOpts, maxParts int) []ast.Vertex {
 	var parts []ast.Vertex
 	n := g.rng(0, maxParts, "parts")
-	prevSimple := false
+	prevSimple := 0
 	for i := 0; i < n; i++ {
 		if g.flip("isText") {
 			if len(parts) > 0 {
@@ -376,8 +386,16 @@ func (g *Gen) body(o bodyOpts, maxParts int) []ast.Vertex {
 				}
 			}
 			s := g.text(o, 4, false)
-			if prevSimple {
+			if prevSimple == 1 {
 				s = safeAfterSimple(s)
+			} else if prevSimple == 2 {
+				// after "$a->b" only a name character would extend the interpolation; "->c" and "[0]" are text
+				if g.chance(1, 3, "propchaintext") {
+					s = g.pick("propchain", "->c", "[0]", "->", "[") + s
+					g.feat("interp-prop-then-literal-chain")
+				} else if len(s) > 0 && isNameChar(s[0]) {
+					s = " " + s
+				}
 			}
 			if s == "" {
 				continue
@@ -385,7 +403,7 @@ func (g *Gen) body(o bodyOpts, maxParts int) []ast.Vertex {
 			p := g.strPart(s)
 			g.setGap(p.EncapsedStrTkn, GapNone)
 			parts = append(parts, p)
-			prevSimple = false
+			prevSimple = 0
 		} else {
 			// text directly before an interpolation must not end in "$" / "{" / odd backslashes
 			if len(parts) > 0 {
